@@ -286,6 +286,20 @@ class BaseStorage:
                 await self.delete_event(event.id)
 
 
+def event_from_json(event_json: dict) -> Event:
+    """
+    Build the Event as the client sent it.
+    Event() would compute a missing id itself and coerce kind with int(),
+    and then acknowledge an object that is not the signed event
+    """
+    if not isinstance(event_json.get("id"), str) or not event_json["id"]:
+        raise ValueError("id")
+    for field in ("kind", "created_at"):
+        if type(event_json.get(field)) is not int:
+            raise ValueError(field)
+    return Event(**event_json)
+
+
 class BaseSubscription:
     __slots__ = (
         "__weakref__",
